@@ -361,6 +361,13 @@ class Explorer:
                     env2 = dict(env)
                     env2["__depth"] = _depth(env) + 1
                     return self._classify(["bin", rr[1].replace("WithOverflow", ""), rr[2], rr[3]], env2, bi)
+            if o[1]["p"] and ("d", o[1]["l"]) in env and _depth(env) < 12:
+                rr = env[("d", o[1]["l"])]
+                projs = [pr for pr in o[1]["p"] if pr[0] != "downcast"]
+                if rr[0] == "agg" and len(projs) == 1 and projs[0][0] == "field" and projs[0][1] < len(rr[2]):
+                    env2 = dict(env)
+                    env2["__depth"] = _depth(env) + 1
+                    return self._classify(["use", rr[2][projs[0][1]]], env2, bi)
             if o[1]["p"]:
                 return ("place", self._place_key(o[1]))
             if not o[1]["p"] and ("d", o[1]["l"]) in env and _depth(env) < 12:
@@ -373,7 +380,10 @@ class Explorer:
             if len(ds) == 1 and ds[0][2] == "assign" and not o[1]["p"]:
                 return self._classify(ds[0][3]["r"], env, bi)
             if len(ds) == 1 and ds[0][2] == "call" and not o[1]["p"]:
-                return ("call", ds[0][3]["f"].get("name"), ds[0][3])
+                tt = ds[0][3]
+                if tt["a"] and mir.VIEW.search(tt["f"].get("path", "") or "") and tt["f"].get("name") not in ("branch", "into_iter"):
+                    return ("value", _origin_key(b, tt["a"][0], self.view))
+                return ("call", tt["f"].get("name"), tt)
             return ("value", _origin_key(b, o, self.view))
         if r[0] == "agg" and r[1][0] == "adt":
             inner = None
@@ -388,10 +398,15 @@ class Explorer:
                     if len(ds) == 1 and ds[0][2] == "assign":
                         inner = self._classify(ds[0][3]["r"], env, bi)
                     elif len(ds) == 1 and ds[0][2] == "call":
-                        inner = ("call", ds[0][3]["f"].get("name"), ds[0][3])
+                        inner = self._classify(["use", o], env, bi)
                     else:
                         inner = ("value", _origin_key(b, o, self.view))
-            return ("variant", r[1][2], inner)
+            allf = None
+            if len(r[2]) > 1 and _depth(env) < 10:
+                env3 = dict(env)
+                env3["__depth"] = _depth(env) + 1
+                allf = tuple((nm, self._classify(["use", o], env3, bi)) for nm, o in zip(r[1][4], r[2]))
+            return ("variant", r[1][2], inner, allf)
         if r[0] == "agg":
             return ("agg", r[1][0], tuple(self._classify(["use", o], env, bi) for o in r[2]))
         if r[0] == "bin":
@@ -444,6 +459,8 @@ def short(v):
     if k == "const":
         return str(v[1])
     if k == "variant":
+        if len(v) > 3 and v[3]:
+            return v[1] + "{" + ",".join("%s:%s" % (nm, short(x)) for nm, x in v[3]) + "}"
         return v[1] + ("(" + short(v[2]) + ")" if v[2] is not None else "")
     if k == "expr":
         return "%s(%s)" % (v[1], ",".join(short(x) for x in v[2:]))
